@@ -229,13 +229,30 @@ def load(modname):
     if modname in _registry:
         return _registry[modname]
     if modname == PKG:
+        # the package __init__ is executed too, so that sub-modules are first imported in
+        # the package's own canonical order (its import cycles rely on that order)
         m = LazyPackage(PKG)
         m.__path__ = [os.path.join(REPO, PKG)]
         m.__package__ = PKG
+        m.__file__ = os.path.join(REPO, PKG, "__init__.py")
         _registry[PKG] = m
+        src = open(m.__file__, "rb").read()
+        source_sha[PKG] = hashlib.sha256(src).hexdigest()
+        tree = _CallRewriter().visit(ast.parse(src.decode("utf-8"), filename=m.__file__))
+        ast.fix_missing_locations(tree)
+        m.__dict__["__builtins__"] = _make_builtins(_importer)
+        try:
+            exec(compile(tree, m.__file__, "exec"), m.__dict__)
+        except BaseException:
+            del _registry[PKG]
+            raise
         return m
     if modname in REAL_MODULES:
         return importlib.import_module(modname)
+    if PKG not in _registry:
+        load(PKG)
+        if modname in _registry:
+            return _registry[modname]
     path, is_pkg = _path_of(modname)
     if path is None:
         raise ImportError("no repository module %s" % modname)
